@@ -4,12 +4,62 @@ import json
 props=[json.loads(l)['id'] for l in open('/verif/properties.jsonl')]
 TECH="contract-based deductive verification: contracts in /repo/<pkg>/zz_contracts_verif.go, VCs generated from go/ssa of the current tree by govc, discharged by z3/z3-new/cvc5"
 claims={
+ "C03": dict(
+  text="Narrow: the adapter layer around capture results is proved for all inputs: onepass.SearchAt re-bases every slot by start (unset slots stay -1, all within [start,len]), Transition.UpdateSlots/applyMatchSlots only write pos into masked slots, SlotTable Get/Set/Copy/Reset/ResetState/ForState (table view, reset => all -1). Which iteration or branch a group reports is decided inside PikeVM / the one-pass builder and is NOT verified.",
+  note="Assumed: (*onepass.DFA).Search result shape; PikeVM and one-pass construction (no contract within reach expresses capture semantics short of a formal regex semantics).",
+  ref="DESIGN 6/C03"),
+ "C04": dict(
+  text="Engine.Count and Engine.findAllIndicesLoop are proved, for every haystack, limit n and mode, to produce exactly the count of stdlib's allMatches loop (recursive spec cnt over uninterpreted reference-match functions, UTF-8 rune width included), every emitted span to be the reference match at its own start, ordered and non-overlapping, buffer aliasing as documented; advancePastEmpty equals stdlib's step width. Relative to the assumed contract of the strategy dispatcher.",
+  note="Assumed: findIndicesAtWithState / FindIndices / lazy DFA SearchAt+SearchReverse return the reference match (uninterpreted refFound/refStart/refEnd with axioms refRange, refResume, refResumeNone); engine invariant dfaLink/anchoredLink. The remaining enumeration loops in regex.go (iterators, FindAllSubmatch, AppendAllIndex dst handling) are not yet under contract.",
+  ref="DESIGN 6/C04"),
+ "C05": dict(
+  text="Narrow: every loop of every function under contract carries a decreases measure that is proved non-negative and strictly decreasing (termination of the loop), which bounds the iterations of the simd kernels, Memmem candidate loops (searchStart strictly increases), enumeration loops (pos strictly increases), cache/table maintenance loops. No constant K over all patterns is derived and recursion depth/cost is not bounded.",
+  note="Per-call cost of PikeVM, lazy DFA, backtracker recursion and compile time are not decided by this check; map-iteration loops carry no measure.",
+  ref="DESIGN 6/C05"),
+ "C07": dict(
+  text="For every function under any contract (simd kernels and wrappers, Memmem family, sparse set, backtracker incl. the recursive explorers, slot table, lazy-DFA cache and state-ID algebra, onepass transition/slots, search-state recycling, enumeration loops): every index, slice, nil-dereference, division and signed-overflow obligation is discharged for all inputs (zero annotations needed for these), explicit panics are unreachable, loops terminate, reported spans satisfy at<=start<=end<=len and buffers are only written inside the declared frame.",
+  note="Assumed: trusted leaf contracts (assembly kernels, PikeVM, lazy DFA search loops, dispatcher), stdlib specs, len<=2^47/2^48 size bounds written as preconditions, (*NFA).State modelled as an opaque immutable object. Compile, regex.go adapters and the assembly are not covered yet.",
+  ref="DESIGN 6/C07"),
+ "C10": dict(
+  text="Narrow: getSearchState is proved to copy the engine's longest flag into the owned backtracker state; Count/findAllIndicesLoop are proved against the reference in the engine's current mode (which exposed and led to the fix of the leftmost-first DFA shortcut in longest mode).",
+  note="Assumed: leaf engines honour the mode (PikeVM.SetLongest, backtracker longest variant, dispatcher contract). Regex.Longest/Copy/CompilePOSIX not yet under contract.",
+  ref="DESIGN 6/C10"),
+ "C11": dict(
+  text="Narrow: Count and findAllIndicesLoop are proved against the same recursive specification, hence len(FindAllIndicesStreaming result) == Count for the loop strategy, for all inputs.",
+  note="The adapters in regex.go and meta/find.go are not yet under contract; dispatcher contracts assumed.",
+  ref="DESIGN 6/C11"),
+ "C12": dict(
+  text="Narrow: every simd dispatch wrapper is proved equal to its scalar definition with the CPU-feature flag hasAVX2 as a free boolean, i.e. for both settings.",
+  note="Config validation, strategy selection and the meta dispatchers are not covered here; assembly kernels are trusted contracts.",
+  ref="DESIGN 6/C12"),
+ "C13": dict(
+  text="Every recycled per-search structure under contract is proved to behave as a function of its abstract view, and the view after reset/clear is the empty view whatever the stale contents: sparse set (Clear/Insert/Contains/Remove), backtracker visited table (generation stamps incl. uint16 wrap, stamps<=generation over the whole capacity, shouldVisit, the per-start generation bump, the recursive explorers preserve the invariant), lazy-DFA cache (Clear/ClearKeepMemory/Reset leave no readable transition, Insert hands out all-invalid rows, SetFlatTransition frame), slot table, onepass cache, SearchState.reset, getSearchState/putSearchState.",
+  note="Assumed: determinism of PikeVM / DFA search loops given these views; PikeVM scratch clearing; sync.Pool and atomic.Pointer hand-off. Two genuine defects found by these obligations were fixed in /repo (see known_findings.json).",
+  ref="DESIGN 6/C13"),
+ "C14": dict(
+  text="Narrow (support structures only): lazy StateID tag algebra (Offset/With*Tag/Is*Tag, safeOffset), onepass Transition packing (constructors and accessors are mutual inverses for next<=MaxStateID), cache clear protocol and row initialisation, isWordByte/checkLookAssertion safety.",
+  note="Not applicable part: that PikeVM, backtracker, lazy DFA determinisation/search, one-pass construction and NFA reversal return the reference answer - no contract within reach expresses this without a formal semantics of the compiled NFA.",
+  ref="DESIGN 6/C14"),
  "C18": dict(
   text="Every Go-level byte-search primitive of package simd (SWAR kernels memchr/2/3/Pair/isASCII, scalar class/digit/table kernels, dispatch wrappers for hasAVX2 true and false, Memmem family, SelectRareBytes) is proved equal to its scalar definition for all haystacks, lengths and needles, with all index/slice/overflow obligations and loop termination; unbounded (loop invariants).",
   note="Assembly kernels (*AVX2) are trusted contracts equal to the scalar definition (not proved; no bounded stand-in registered yet). Trusted: encoding/binary.LittleEndian.Uint64, math/bits.TrailingZeros64, bytes.Equal specs; len<=2^48; govc translation itself.",
   ref="DESIGN 6/C18"),
+ "C20": dict(
+  text="Proved: BoundedBacktracker.CanHandle/reset keep len(Visited)==numStates*(len+1)<=maxVisitedSize; DFACache.Insert grows the transition table only when MemoryUsage (>=4*len(flatTrans)+8*len(stateList), proved lower bound) is below capacity and by at most two rows, registerState/getState bounds; cache clears drop the table.",
+  note="Not decided: allocation counts (allocs/op) - a compiler/runtime quantity no source-level contract observes; heap reachable from a Regex via the frame engine is not built yet. MemoryUsage arithmetic treated as mathematical (opt math_int).",
+  ref="DESIGN 6/C20"),
 }
-na_reason={}
+na_reason={
+ "C01":"dispatch-layer contracts for IsMatch not built yet (leaf engines have no contract within reach; see DESIGN 6/C01)",
+ "C02":"dispatch-layer contracts for FindIndices not built yet (currently an assumed contract used by C04)",
+ "C06":"frame/ownership engine not built yet",
+ "C08":"expand/replace/split contracts not built yet",
+ "C09":"compile/metadata contracts not built yet",
+ "C15":"UTF-8 range compiler contracts not built yet",
+ "C16":"prefilter contracts not built yet",
+ "C17":"literal Seq algebra contracts not built yet",
+ "C19":"specialised searcher contracts not built yet",
+}
 checks=[]
 for p in props:
     if p in claims:
